@@ -611,7 +611,26 @@ def run_case(case) -> Outcome:
             call, snap, cleanup, post = await cellfn(pre, tg)
             before = snap()
             done = False
-            if cancelled and how == "above-group":
+            if cancelled and how == "native-during-yield":
+                # no scope is cancelled: the task is cancelled natively (Task.cancel()) from a loop callback while the
+                # call is suspended in its (possibly shielded) checkpoint. Either the call completes (the effect is
+                # there) or it raises the cancellation having undone everything - never a different error
+                task = asyncio.current_task()
+                loop.call_soon(task.cancel)
+                try:
+                    await call()
+                    done = True
+                except cancelled_exc:
+                    task.uncancel()
+                    after = snap()
+                    if after != before:
+                        out.bad("effect-despite-cancel", name + ":native", f"{case}: state {before} -> {after}")
+                else:
+                    try:
+                        await asyncio.sleep(0)      # the pending native request lands here
+                    except cancelled_exc:
+                        task.uncancel()
+            elif cancelled and how == "above-group":
                 # the call runs in a child task; the cancelled scope lies above the child's task group, whose own
                 # scope is not cancelled and whose host waits behind a shield
                 raised = False
@@ -738,6 +757,7 @@ def enumerate_cases(tier):
                     yield {"cell": name, "cancelled": True, "config": config, "pre": {"how": "above-group"}}
                     yield {"cell": name, "cancelled": True, "config": config, "pre": {"how": "during-shielded-checkpoint"}}
                     yield {"cell": name, "cancelled": True, "config": config, "pre": {"how": "own-shielded"}}
+                    yield {"cell": name, "cancelled": True, "config": config, "pre": {"how": "native-during-yield"}}
 
 
 NAMES = sorted(ALL_CELLS)
@@ -751,7 +771,7 @@ def _gen(g):
            "waiters": g.int(0, 3), "after": g.int(0, 2), "size": g.choice([1, 2, 3, math.inf]), "fill": g.int(0, 3),
            "work": g.int(0, 2), "take": g.int(1, 4), "abandon": g.bool()}
     if cancelled:
-        pre["how"] = g.choice(["own", "parent", "deadline", "above-group", "during-shielded-checkpoint", "own-shielded"])
+        pre["how"] = g.choice(["own", "parent", "deadline", "above-group", "during-shielded-checkpoint", "own-shielded", "native-during-yield"])
         pre["prior"] = g.int(0, 1)
         pre["delivered"] = g.int(0, 3)
     return {"cell": name, "cancelled": cancelled, "config": g.choice(["S", "E", "U"]), "pre": pre}
